@@ -770,3 +770,7 @@ M('C02', 'non-finite indices reported before the clamp', 'C02-D3.closed',
   (CALC, '    idx = numpy.asarray(idx)  # assure idx is an array\n', '    idx = numpy.asarray(idx)  # assure idx is an array\n    idx[~numpy.isfinite(idx)] = -1\n'))
 M('C02', 'forecast lookup warns for a magnitude below the first edge', 'C11-D3.raise',
   (FOR, '            raise ValueError("mags outside the range of forecast magnitudes.")', '            import warnings\n            warnings.warn("mags outside the range of forecast magnitudes.")'))
+for _p in ('C05', 'C16', 'C06'):
+    M(_p, 'repair 0025a16 undone: the region fallback waits for an exception the try cannot raise', 'G-DEADHANDLER',
+      (BRI, '    except (AttributeError, CSEPCatalogException):', '    except CSEPCatalogException:'))
+E('C05', 'region fallback for a missing attribute only', (BRI, '    except (AttributeError, CSEPCatalogException):', '    except AttributeError:'))
